@@ -350,6 +350,142 @@ func c08Server(seed int64, rounds int) {
 		}
 		count("server_rounds")
 	}
+	// exchanges: concurrent clients swap a value in and the previous one out (SET k v GET,
+	// GETSET, with and without an expiry option).  Every written value must come back exactly
+	// once - as somebody's previous value or as the final value: no value may be handed to two
+	// clients and none may vanish.
+	for round := 0; round < rounds/4+1 && len(sum.Failures) == 0; round++ {
+		clients := 2 + round%5
+		per := 40
+		key := fmt.Sprintf("xchg%d", round)
+		startX := make(chan struct{})
+		sum.Cases++
+		var wg sync.WaitGroup
+		var mu sync.Mutex
+		seen := map[string]int{}
+		written := map[string]bool{}
+		var errs atomic.Int64
+		for c := 0; c < clients; c++ {
+			wg.Add(1)
+			go func(c int) {
+				defer wg.Done()
+				cl, err := hx.Dial(srv.Addr)
+				if err != nil {
+					errs.Add(1)
+					return
+				}
+				defer cl.Close()
+				<-startX
+				for i := 0; i < per; i++ {
+					val := fmt.Sprintf("c%d-%d", c, i)
+					var v hx.RV
+					var err error
+					switch (c + i + round) % 4 {
+					case 0:
+						v, err = cl.Do("SET", key, val, "GET")
+					case 1:
+						v, err = cl.Do("GETSET", key, val)
+					case 2:
+						v, err = cl.Do("SET", key, val, "GET", "EX", "100000")
+					default:
+						v, err = cl.Do("SET", key, val, "PX", "100000000", "GET")
+					}
+					if err != nil || v.Kind != '$' {
+						errs.Add(1)
+						continue
+					}
+					mu.Lock()
+					written[val] = true
+					if !v.Null {
+						seen[string(v.Str)]++
+					}
+					mu.Unlock()
+				}
+			}(c)
+		}
+		time.Sleep(20 * time.Millisecond) // let every client connect, then start them together
+		close(startX)
+		wg.Wait()
+		if errs.Load() > 0 {
+			fail("c08-error", fmt.Sprintf("server: %d exchange requests failed merely because other clients were active", errs.Load()), nil)
+			break
+		}
+		cl, err := hx.Dial(srv.Addr)
+		if err == nil {
+			if v, err := cl.Do("GET", key); err == nil && v.Kind == '$' && !v.Null {
+				seen[string(v.Str)]++
+			}
+			cl.Close()
+		}
+		for val := range written {
+			if seen[val] != 1 {
+				fail("c08-lost-update", fmt.Sprintf("server: %d clients exchanging values on one key with SET ... GET / GETSET: the value %q came back %d times (as a previous value or as the final value); each written value must come back exactly once", clients, val, seen[val]), nil)
+				break
+			}
+		}
+		count("exchange_rounds")
+	}
+	// a write with an option is one atomic change: a reader that takes an atomic look (MULTI GET
+	// TTL EXEC) never sees the new value without its expiry
+	for round := 0; round < 2 && len(sum.Failures) == 0; round++ {
+		key := fmt.Sprintf("opt%d", round)
+		sum.Cases++
+		stop := make(chan struct{})
+		var torn atomic.Int64
+		var tornMsg atomic.Value
+		var wg sync.WaitGroup
+		wg.Add(1)
+		go func() {
+			defer wg.Done()
+			cl, err := hx.Dial(srv.Addr)
+			if err != nil {
+				return
+			}
+			defer cl.Close()
+			for {
+				select {
+				case <-stop:
+					return
+				default:
+				}
+				cl.Do("MULTI")
+				cl.Do("GET", key)
+				cl.Do("TTL", key)
+				v, err := cl.Do("EXEC")
+				if err != nil || v.Kind != '*' || len(v.Arr) != 2 {
+					continue
+				}
+				if !v.Arr[0].Null && v.Arr[1].Kind == ':' && v.Arr[1].Int < 0 {
+					torn.Add(1)
+					tornMsg.Store(fmt.Sprintf("value %q with TTL %d", v.Arr[0].Str, v.Arr[1].Int))
+				}
+			}
+		}()
+		wcl, err := hx.Dial(srv.Addr)
+		if err == nil {
+			at := time.Now().Add(48 * time.Hour)
+			for i := 0; i < 300; i++ {
+				val := fmt.Sprintf("v%d", i)
+				switch i % 4 {
+				case 0:
+					wcl.Do("SET", key, val, "EXAT", fmt.Sprint(at.Unix()))
+				case 1:
+					wcl.Do("SET", key, val, "PXAT", fmt.Sprint(at.UnixMilli()))
+				case 2:
+					wcl.Do("SET", key, val, "EX", "200000")
+				default:
+					wcl.Do("SETEX", key, "200000", val)
+				}
+			}
+			wcl.Close()
+		}
+		close(stop)
+		wg.Wait()
+		if torn.Load() > 0 {
+			fail("c08-torn-transaction", fmt.Sprintf("server: while one client kept writing the key with an expiry option (SET ... EXAT/PXAT/EX, SETEX), another client's atomic look (MULTI GET TTL EXEC) saw the value without its expiry %d times, e.g. %v", torn.Load(), tornMsg.Load()), nil)
+		}
+		count("option_atomicity_rounds")
+	}
 }
 
 // ---------- C09: process death ----------
